@@ -234,6 +234,15 @@ class Table(Vector):
 		# Build column map
 		self._column_map = self._build_column_map()
 
+	def fingerprint(self) -> int:
+		"""Fingerprint of the current cell contents.
+		
+		Columns are written and replaced without the table being told, so the
+		table never memoises its own value; each column memoises (and
+		invalidates) its own, which keeps this O(number of columns).
+		"""
+		return self._compute_fingerprint_full()
+
 	def __len__(self):
 		if len(self._underlying) == 0:
 			return 0
